@@ -27,7 +27,7 @@ KNOWN_KINDS = {}
 
 
 @st.composite
-def _case(draw):
+def _case(draw, tier="quick"):
     q = draw(st.sampled_from([0.25, 0.25, None]))
     spec = draw(lab_spec("Lab", kind=draw(st.sampled_from(["plate", "trough"])), max_rows=8, max_cols=8, regime=draw(st.sampled_from(["roomy", "tight"])), grid=bool(q), q=q or 0.01, allow_names=False))
     op = st.fixed_dictionaries(
@@ -39,11 +39,11 @@ def _case(draw):
             "label": label_st,
         }
     )
-    return {"lab": spec, "device": draw(st.sampled_from(["evo", "fluent"])), "q": q, "ops": draw(st.lists(op, min_size=1, max_size=20))}
+    return {"lab": spec, "device": draw(st.sampled_from(["evo", "fluent"])), "q": q, "ops": draw(st.lists(op, min_size=1, max_size=20 if tier == "quick" else 30))}
 
 
 def strategy(tier):
-    return _case()
+    return _case(tier)
 
 
 def check_case(case) -> Obs:
